@@ -15,6 +15,23 @@ type PropSpec struct {
 }
 
 var properties = map[string]PropSpec{
+	"C10": {
+		Level: "other",
+		Explanation: "R-LOCK: the lock discipline that atomicity of the eight content mutators needs, decided on the SSA of everything reachable from Push, Pop, Insert, Remove, Replace, Swap, Reverse and Reset. L1: every store of a slice header or an element slot in that scope lies in the held region (CFG-reachable from lock() without passing unlock(), and dominated by the lock()) of the lock of the very stack it writes, or in a function all of whose call sites - transitively - lie in such regions. L2: (a) a function that locks its receiver does not use it before the acquisition, so no validation (emptiness, bounds, capacity) can be stale; (b) the capacity invariant (R-CAP), the configuration-slot invariant (R-SLOT0) and the list-operation specifications (R-SEQ) are re-proved in concurrent mode, in which acquiring a lock forgets everything known about shared memory - so the guards protecting each write are evaluated inside the same critical section as the write (capacity never exceeded, configuration never returned or removed, Pop on a stack emptied by a competitor returns (nil,false)). L3: the lock bookkeeping (nodeConfig.ldr) is written after Mutex.Lock and before Mutex.Unlock. L4: nothing called while a lock is held locks the same stack again (self-deadlock; lock summaries rooted at parameters, whole package), and every lock() is followed at once by a deferred unlock() or by an unlock() on every path to a return (no leaked lock). L5: reads of the shared configuration slot made without any lock - the exported wrappers' IsInit/IsEmpty/getState pre-checks and lock()'s own lookup of the mutex - are reported; they are genuine data races (the mutex lives inside slot 0 of the data it protects) and are listed as known findings.",
+		NotDecided: "linearizability of return values and final content over all schedules, and data-race freedom as a whole: these quantify over interleavings; a lock-discipline analysis gives necessary conditions. Lock-order deadlocks between two different stacks (Transfer, nested Reveal) are not analysed.",
+		Run: func(c *Ctx) {
+			c.ruleInv()
+			c.ruleLocks()
+			c.withConcurrent(func() {
+				c.ruleCapInv()
+				c.ruleSlot0Stores()
+				c.ruleSeq()
+			})
+			c.rep.floor("R-LOCK", 60)
+			c.rep.floor("R-CAP", 10)
+			c.rep.floor("R-SEQ", 19)
+		},
+	},
 	"C12": {
 		Level: "other",
 		Explanation: "R-CONV: a user-declared alias of Stack/Condition (or a pointer to one) reaches the same code as the native value - the necessary condition for behaving like it. ASSERT: the package recognises a Stack or Condition by a plain type assertion (which no alias satisfies) nowhere except in the two converters themselves and in three positive fast paths (isNesting, canPushNester, the Condition-side no-nesting filter) whose other branch goes through the converter; the census of such assertions is re-done on every run. FIRST: in condition.string and stack.defaultAssertionHandler a value is rendered through its own String method or the primitive stringer only on paths where both converters have been applied to that very value and declined it, so an alias that has its own String method is still rendered as the Stack/Condition it is. USES: each consumer named by the property (String on both types, IsEqual, Unmarshal on both types, Traverse's two helpers, both IsNesting, Condition.Len, both no-nesting filters, Defrag, Transfer) calls the converter(s); stackageStructsEqual applies IsEqual to the converted first operand with the converted second operand; ConvertStack/ConvertCondition return the converter's results unchanged. SELF: every (zero,false) return path of each converter is justified by a nil argument, a zero native or converted instance, or ConvertibleTo()==false evaluated on derefPtr(typOf(u), valOf(u)) of the argument itself - nothing else can decline a value (e.g. a kind test before pointers are followed).",
